@@ -97,9 +97,10 @@ Proof. unfold set_online. repeat wbind; [apply wem_set_offline|apply wem_hook_op
 Lemma wem_set_available : WEm set_available.
 Proof.
   intros s. unfold set_available.
-  assert (Q : WEm (modify (fun s0 => set_stream (Some (s_nextgen s)) (set_nextgen (s_nextgen s + 1) s0));;
-                   hook_open HAvail;; modify (set_hUnavail true);; set_online;; emit [EPathReady (s_nextgen s)])).
-  { repeat wbind; [wset|apply wem_hook_open|wset|apply wem_set_online|apply wem_emit; reflexivity]. }
+  assert (Q : WEm (modify (fun s0 => set_sub (if aa s0 then SOffline else SNone)
+                                       (set_stream (Some (s_nextgen s)) (set_nextgen (s_nextgen s + 1) s0)));;
+                   hook_open HAvail;; modify (set_hUnavail true);; whenM not_aa set_online;; emit [EPathReady (s_nextgen s)])).
+  { repeat wbind; [wset|apply wem_hook_open|wset|apply wem_when, wem_set_online|apply wem_emit; reflexivity]. }
   apply Q.
 Qed.
 Lemma wem_call_unavailable : WEm call_unavailable.
@@ -114,8 +115,13 @@ Proof.
   unfold set_not_available. repeat wbind;
     [apply wem_emit; reflexivity|apply wem_set_offline|apply wem_reset|apply wem_call_unavailable|wset].
 Qed.
+Lemma wem_source_gone : WEm source_gone.
+Proof.
+  assert (P : WEm (set_offline ;; start_offline)) by (wbind; [apply wem_set_offline|unfold start_offline; wset]).
+  intros s. unfold source_gone. destruct (aa s); [apply P|apply wem_sna].
+Qed.
 Lemma wem_erp : WEm execute_remove_publisher.
-Proof. unfold execute_remove_publisher. wbind; [apply wem_sna|wset]. Qed.
+Proof. unfold execute_remove_publisher. wbind; [apply wem_source_gone|wset]. Qed.
 Lemma wem_handler_start : WEm handler_start.
 Proof. apply wem_plain. intros s. unfold handler_start, panic. destruct s; cbn. destruct s_ssRunning; split; reflexivity. Qed.
 Lemma wem_handler_stop : WEm handler_stop.
@@ -161,11 +167,16 @@ Qed.
 Lemma wem_answer (f : pstate -> list pevent) : (forall s, forallb plain (f s) = true) -> WEm (fun s => (s, f s)).
 Proof. intros H. apply wem_plain. intros s. split; [apply H|reflexivity]. Qed.
 
-Lemma wem_attach q p : WEm (attach_publisher q p).
+Lemma wem_attach_tail q p : WEm (attach_tail q p).
 Proof.
-  unfold attach_publisher. repeat wbind;
-    [apply wem_set_available|wset|apply wem_when; wbind; [wset|apply wem_pub_schedule_close]|apply wem_consume|].
+  unfold attach_tail. repeat wbind;
+    [wset|wset|apply wem_when, wem_set_online|apply wem_when; wbind; [wset|apply wem_pub_schedule_close]|apply wem_consume|].
   apply (wem_answer (fun s => [EAnswer q (AStream (cur_stream s))])). reflexivity.
+Qed.
+Lemma wem_attach q p ok : WEm (attach_publisher q p ok).
+Proof.
+  unfold attach_publisher. wbind; [apply wem_when, wem_set_available|].
+  intros s. cbn beta. destruct (aa s && negb ok); [split; [apply we_plain|]; reflexivity|apply wem_attach_tail].
 Qed.
 
 Lemma wem_step fx o : WEm (fun s => step_gen fx s o).
@@ -180,7 +191,7 @@ Proof.
   - (* AddPublisher *) unfold do_add_publisher. destruct (c_static (s_conf s)); [split; [apply we_plain|]; reflexivity|].
     destruct (s_source s) as [old|]; [|apply wem_attach].
     destruct (negb (c_override (s_conf s))); [split; [apply we_plain|]; reflexivity|].
-    apply (wem_bind _ _ (wem_emit [EPubClosed old] eq_refl) (wem_bind _ _ wem_erp (wem_attach q p))).
+    apply (wem_bind _ _ (wem_emit [EPubClosed old] eq_refl) (wem_bind _ _ wem_erp (wem_attach q p ok))).
   - (* RemovePublisher *) unfold do_remove_publisher. destruct (s_source s); [|split; [apply we_nil|reflexivity]].
     destruct (z =? p); [|split; [apply we_nil|reflexivity]].
     apply (wem_bind _ _ wem_erp (wem_when _ _ wem_pub_stop)).
@@ -193,11 +204,12 @@ Proof.
     destruct (od_static (s_conf t)); [apply (wem_when _ _ wem_ss_schedule_close)|].
     destruct (od_pub (s_conf t)); [apply (wem_when _ _ wem_pub_schedule_close)|split; [apply we_nil|reflexivity]].
   - (* StaticReady *) unfold do_static_ready. destruct (s_ssRunning s && negb (s_instReady s)); [|split; [apply we_nil|reflexivity]].
-    refine (wem_bind _ _ wem_set_available (wem_bind _ _ _ (wem_bind _ _ wem_consume (wem_bind _ _ _ _))) s);
-      [apply wem_when; wbind; [wset|apply wem_ss_schedule_close]|wset|].
+    refine (wem_bind _ _ (wem_when _ _ wem_set_available) (wem_bind _ _ _ (wem_bind _ _ (wem_when _ _ wem_set_online)
+             (wem_bind _ _ _ (wem_bind _ _ wem_consume (wem_bind _ _ _ _))))) s);
+      [wset|apply wem_when; wbind; [wset|apply wem_ss_schedule_close]|wset|].
     apply (wem_answer (fun s => [EAnswer q (AStream (cur_stream s))])). reflexivity.
   - (* StaticNotReady *) unfold do_static_not_ready. destruct (s_ssRunning s && s_instReady s); [|split; [apply we_nil|reflexivity]].
-    refine (wem_bind _ _ wem_sna (wem_bind _ _ _ (wem_when _ _ wem_ss_stop)) s). wset.
+    refine (wem_bind _ _ wem_source_gone (wem_bind _ _ _ (wem_when _ _ wem_ss_stop)) s). wset.
   - (* TimerFire *) unfold do_timer. destruct (timer_armed t s); [|split; [apply we_nil|reflexivity]].
     refine (wem_bind _ _ _ (wem_bind _ _ (wem_emit [EFired t] _) _) s); [destruct t; wset|destruct t; reflexivity|].
     destruct t; repeat wbind; first [apply wem_fail_on_hold|apply wem_ss_stop|apply wem_sna|apply wem_pub_stop].
@@ -224,8 +236,10 @@ Qed.
 Lemma we_run fx cf ops : WE cf (snd (run_gen fx cf ops)).
 Proof.
   unfold run_gen. cbn [snd]. apply we_app.
-  - apply we_plain. unfold init_events. destruct (c_static cf && negb (c_sod cf)); reflexivity.
-  - apply (we_trace fx ops (init_state cf)).
+  - assert (W : WEm init_m).
+    { unfold init_m. wbind; [apply wem_when, wem_set_available|apply wem_when, wem_handler_start]. }
+    apply (W (init_base cf)).
+  - pose proof (we_trace fx ops (init_state cf)) as T. destruct (init_fields cf) as [_ E]. rewrite E in T. exact T.
 Qed.
 
 (* classification of the log lines of pair k: "runOnX command started" opens, "... stopped" closes *)
